@@ -393,6 +393,9 @@ pub assume_specification<T, F> [<[T]>::sort_by] (s: &mut [T], f: F)
         final(s)@.len() == old(s)@.len(),
         sorted_by_closure(final(s)@, f);
 
+// [A-from-reflexive] core's blanket `impl<T> From<T> for T` is the identity
+pub assume_specification<T> [<T as From<T>>::from](t: T) -> (r: T)
+    ensures r == t;
 // [A-ordering-eq] derive(PartialEq) on std::cmp::Ordering
 pub assume_specification [<Ordering as PartialEq>::eq](a: &Ordering, b: &Ordering) -> (r: bool)
     ensures r == (*a == *b);
